@@ -3,8 +3,10 @@
    message in a RetrySender callback K = Retry rid mseq type payload inner; `Custody K c` says that K
    is done (its datagram was acknowledged), or attached to a message waiting in the outgoing queue,
    or registered for a datagram that is still pending. *)
-From Model Require Import Base SeqNum Wire Conn.
-From Proofs Require Import ConnFrameP NonceP PackP AckP CallbackP CustodyP DeliverP.
+From RecordUpdate Require Import RecordUpdate.
+From Model Require Import Base SeqNum Wire Conn Client Net TimedNet LiveNet.
+From Proofs Require Import ConnFrameP NonceP PackP AckP CallbackP CustodyP DeliverP LiveNetP.
+Import RecordSetNotations.
 Open Scope Z_scope.
 
 (* 1. Custody (safety, every schedule): from the moment send accepts a guaranteed message, through
@@ -55,13 +57,155 @@ Theorem C05_lost_datagram_requeues : forall e S Ka K c n now c' o,
 Proof. exact custody_is_fresh. Qed.
 Print Assumptions C05_lost_datagram_requeues.
 
-(* Not proved as one theorem (stated so that it is visible): the liveness composition "under a
-   healed schedule — both sides tick at least every tau, every emitted datagram is delivered before
-   the next tick, the connection stays open — the message is handed to the peer application within a
-   bounded number of rounds".  It is the composition of 1-3 with the receiver theorems of C04/C06
-   (an authentic new datagram is accepted and its new messages are delivered; reassembly completes
-   unless the receiver's fragment context expires first: known finding D17) and is exercised by
-   harness/props/C05.py on every run, for every boundary length and MTU. *)
+(* 4. Liveness, the two endpoints together (Model/LiveNet.v over the timed joint histories of
+      Model/TimedNet.v: a client endpoint, the server-side connection of that client, one clock, the
+      ghost log of every datagram each side has emitted and of those not yet shown to the peer).
+
+      The pair (live_start): both CONNECTED under the same key, nothing queued or waiting for a retry
+      on either side (the guaranteed message is the pair's only application traffic), the receiver's
+      two windows behind the sender's counters, first half lap of the sequence rings.
+      At t0 the sender's application calls send(p, retry=RETRY_ON_TIMEOUT, callback=ucb) — which is
+      what UdpClient.send_guaranteed / ServerClientConnection.send_guaranteed do — with an
+      UNFRAGMENTED payload (len p <= MAX_PAYLOAD_SIZE < 2^16): after_send.
+
+      The history (hvalid), ANY length, event by event: the clock does not run backwards; the SENDER
+      calls update() at least every tau; a receive opportunity of either side yields nothing, a copy
+      of ANY datagram the peer has emitted so far (loss, duplication, reordering, arbitrary delay,
+      before and after healing, in both directions), or bytes that do not open under the session key;
+      every datagram the SENDER emits at or after th (the network is "healed" in the sender's
+      direction; the acknowledgement direction need not heal) is shown to the peer within d;
+      fewer than HALF datagrams in the sender's direction; the connection stays open (stays_open:
+      this update() does not report DROPPED, this sweep does not remove the client).
+
+      Then at every moment `now` later than  max(th, t0) + max(keep-alive interval, send interval)
+      + tau + d  up to which these hypotheses hold (hnow), the receiver's incoming_messages is what
+      it was at t0 plus exactly (message seq, p): the payload has been handed to the peer
+      application, once, and nothing else has.  Neither the message time-out nor the ack direction
+      enter the bound: an unacknowledged guaranteed message is re-packed from pending_retry_msg as
+      soon as it is one keep-alive interval old. *)
+Theorem C05_healed_network_delivers_client_to_server_partial : forall e P k t0 th cli srv p ucb,
+  live_start k t0 cli srv -> lenv_ok e -> len p <= e_max_payload e -> forall hs now, 0 <= tp_d P ->
+  hvalid e P SCli th (after_send e SCli cli srv p ucb t0) hs ->
+  hnow P SCli th (trun e P (after_send e SCli cli srv p ucb t0) hs) now ->
+  Z.max th t0 + live_bound P cli < now ->
+  c_incoming (t_srv (trun e P (after_send e SCli cli srv p ucb t0) hs))
+  = c_incoming srv ++ [(seq_succ (c_seq_msg cli), p)].
+Proof. exact cli_to_srv_delivered. Qed.
+Print Assumptions C05_healed_network_delivers_client_to_server_partial.
+
+(*    ... and from the server-side client object (ServerClientConnection.send_guaranteed) to the client *)
+Theorem C05_healed_network_delivers_server_to_client_partial : forall e P k t0 th cli srv p ucb,
+  live_start k t0 srv cli -> lenv_ok e -> len p <= e_max_payload e -> forall hs now, 0 <= tp_d P ->
+  hvalid e P SSrv th (after_send e SSrv cli srv p ucb t0) hs ->
+  hnow P SSrv th (trun e P (after_send e SSrv cli srv p ucb t0) hs) now ->
+  Z.max th t0 + live_bound P srv < now ->
+  c_incoming (t_cli (trun e P (after_send e SSrv cli srv p ucb t0) hs))
+  = c_incoming cli ++ [(seq_succ (c_seq_msg srv), p)].
+Proof. exact srv_to_cli_delivered. Qed.
+Print Assumptions C05_healed_network_delivers_server_to_client_partial.
+
+(*    At EVERY moment of every such history (no lateness needed): the receiver has been handed
+      nothing but that payload, and at most once ... *)
+Theorem C05_delivered_at_most_once_client_to_server : forall e P k t0 th cli srv p ucb,
+  live_start k t0 cli srv -> lenv_ok e -> len p <= e_max_payload e -> forall hs,
+  hvalid e P SCli th (after_send e SCli cli srv p ucb t0) hs ->
+  let n := trun e P (after_send e SCli cli srv p ucb t0) hs in
+  c_incoming (t_srv n) = c_incoming srv \/ c_incoming (t_srv n) = c_incoming srv ++ [(seq_succ (c_seq_msg cli), p)].
+Proof. exact cli_to_srv_at_most_once. Qed.
+Print Assumptions C05_delivered_at_most_once_client_to_server.
+
+Theorem C05_delivered_at_most_once_server_to_client : forall e P k t0 th cli srv p ucb,
+  live_start k t0 srv cli -> lenv_ok e -> len p <= e_max_payload e -> forall hs,
+  hvalid e P SSrv th (after_send e SSrv cli srv p ucb t0) hs ->
+  let n := trun e P (after_send e SSrv cli srv p ucb t0) hs in
+  c_incoming (t_cli n) = c_incoming cli \/ c_incoming (t_cli n) = c_incoming cli ++ [(seq_succ (c_seq_msg srv), p)].
+Proof. exact srv_to_cli_at_most_once. Qed.
+Print Assumptions C05_delivered_at_most_once_server_to_client.
+
+(*    ... and the sender's RetrySender is marked done (it stops retransmitting and reports success to
+      the application's callback) only after the payload has been handed to the peer application:
+      the composition of "acks name accepted datagrams" (C07) with the receiver's message loop. *)
+Theorem C05_done_means_delivered_client_to_server : forall e P k t0 th cli srv p ucb,
+  live_start k t0 cli srv -> lenv_ok e -> len p <= e_max_payload e -> forall hs,
+  hvalid e P SCli th (after_send e SCli cli srv p ucb t0) hs ->
+  let n := trun e P (after_send e SCli cli srv p ucb t0) hs in
+  zmem (c_next_rid cli) (c_done (t_cli n)) = true ->
+  c_incoming (t_srv n) = c_incoming srv ++ [(seq_succ (c_seq_msg cli), p)].
+Proof. exact cli_to_srv_done_means_delivered. Qed.
+Print Assumptions C05_done_means_delivered_client_to_server.
+
+Theorem C05_done_means_delivered_server_to_client : forall e P k t0 th cli srv p ucb,
+  live_start k t0 srv cli -> lenv_ok e -> len p <= e_max_payload e -> forall hs,
+  hvalid e P SSrv th (after_send e SSrv cli srv p ucb t0) hs ->
+  let n := trun e P (after_send e SSrv cli srv p ucb t0) hs in
+  zmem (c_next_rid srv) (c_done (t_srv n)) = true ->
+  c_incoming (t_cli n) = c_incoming cli ++ [(seq_succ (c_seq_msg srv), p)].
+Proof. exact srv_to_cli_done_means_delivered. Qed.
+Print Assumptions C05_done_means_delivered_server_to_client.
+
+(*    Custody in the joint model: as long as the payload has not been handed to the peer application,
+      the sender's RetrySender is not done and the message is in the outgoing queue or scheduled for
+      a retry (pending_retry_msg) with that RetrySender attached. *)
+Theorem C05_sender_holds_until_delivered_client_to_server : forall e P k t0 th cli srv p ucb,
+  live_start k t0 cli srv -> lenv_ok e -> len p <= e_max_payload e -> forall hs,
+  hvalid e P SCli th (after_send e SCli cli srv p ucb t0) hs ->
+  let n := trun e P (after_send e SCli cli srv p ucb t0) hs in
+  let rs := Retry (c_next_rid cli) (seq_succ (c_seq_msg cli)) APP p ucb in
+  c_incoming (t_srv n) = c_incoming srv ->
+  zmem (c_next_rid cli) (c_done (t_cli n)) = false /\
+  ((exists m, In m (c_outgoing (t_cli n)) /\ m_seq m = seq_succ (c_seq_msg cli) /\ m_payload m = p
+              /\ m_retry m = RTimeout /\ m_cb m = Some rs)
+   \/ (exists m, In (seq_succ (c_seq_msg cli), m) (c_pretry_msg (t_cli n)) /\ m_payload m = p /\ m_cb m = Some rs)).
+Proof. exact cli_to_srv_custody. Qed.
+Print Assumptions C05_sender_holds_until_delivered_client_to_server.
+
+Theorem C05_sender_holds_until_delivered_server_to_client : forall e P k t0 th cli srv p ucb,
+  live_start k t0 srv cli -> lenv_ok e -> len p <= e_max_payload e -> forall hs,
+  hvalid e P SSrv th (after_send e SSrv cli srv p ucb t0) hs ->
+  let n := trun e P (after_send e SSrv cli srv p ucb t0) hs in
+  let rs := Retry (c_next_rid srv) (seq_succ (c_seq_msg srv)) APP p ucb in
+  c_incoming (t_cli n) = c_incoming cli ->
+  zmem (c_next_rid srv) (c_done (t_srv n)) = false /\
+  ((exists m, In m (c_outgoing (t_srv n)) /\ m_seq m = seq_succ (c_seq_msg srv) /\ m_payload m = p
+              /\ m_retry m = RTimeout /\ m_cb m = Some rs)
+   \/ (exists m, In (seq_succ (c_seq_msg srv), m) (c_pretry_msg (t_srv n)) /\ m_payload m = p /\ m_cb m = Some rs)).
+Proof. exact srv_to_cli_custody. Qed.
+Print Assumptions C05_sender_holds_until_delivered_server_to_client.
+
+(*    Every prefix of an admissible history is admissible, so these statements speak about every
+      moment of a history; and the executable checks used by the examples and by the correspondence
+      unit live_pair_run imply the stated hypotheses. *)
+Theorem C05_executable_hypotheses : forall e P sd th n vs k t0 x y now,
+  (hvalidb e P sd th n vs = true -> hvalid e P sd th n vs) /\
+  (hnowb P sd th n now = true -> hnow P sd th n now) /\
+  (live_startb k t0 x y = true -> live_start k t0 x y).
+Proof. exact executable_hypotheses. Qed.
+Print Assumptions C05_executable_hypotheses.
+
+(*    The bound is within two ticks of exact: a history inside all the hypotheses in which, two ticks
+      before the bound, nothing has been delivered yet (the first datagram leaves one tick before the
+      network heals and is lost; an update() finds the retry one tick too young, the next one comes tau
+      later, the network takes d). *)
+Theorem C05_bound_within_two_ticks_of_exact :
+  exists e P k t0 th cli srv p ucb hs now,
+    live_start k t0 cli srv /\ lenv_ok e /\ len p <= e_max_payload e /\ 0 <= tp_d P
+    /\ hvalid e P SCli th (after_send e SCli cli srv p ucb t0) hs
+    /\ hnow P SCli th (trun e P (after_send e SCli cli srv p ucb t0) hs) now
+    /\ now = Z.max th t0 + live_bound P cli - 2
+    /\ c_incoming (t_srv (trun e P (after_send e SCli cli srv p ucb t0) hs)) = c_incoming srv.
+Proof. exact bound_nearly_tight_proof. Qed.
+Print Assumptions C05_bound_within_two_ticks_of_exact.
+
+(* Why "_partial" (the full clause, kept visible): "for every payload length up to the fragmentation
+   limit, every pattern of lost/duplicated/reordered datagrams in both directions followed by a healed
+   network, and EVERY INTERLEAVING WITH OTHER TRAFFIC, the message is delivered".  Proved above: every
+   unfragmented length, every fault pattern, both APIs, explicit bound — for a pair whose only
+   application traffic is the message.  Missing: (i) other application traffic of either side
+   interleaved with the message (first-fit packing then lets due retries and older queue entries go
+   first; sender-side custody, theorems 1-3, covers that case, the timed bound does not);
+   (ii) fragmented payloads: reassembly also needs the receiver's fragment context to survive the
+   outage (known finding D17); (iii) sessions past the first half lap of the 16-bit rings (C07/C08
+   state the half-range hypotheses for those).  Theorems 1-3 hold with all of these present. *)
 
 (* non-vacuity: a guaranteed send whose first datagram is lost is re-queued by the time-out sweep
    and emitted again with the same message sequence number *)
@@ -81,3 +225,86 @@ Example C05_retransmission :
    c_done c)
   = ([(1, 6, [x00; x01; x2a]); (2, 6, [x00; x01; x2a]); (3, 6, [x00; x01; x2a])], []).
 Proof. vm_compute. reflexivity. Qed.
+
+(* non-vacuity of 4, client to server: the first datagram (emitted at t0 + 300) is lost for ever, the
+   network heals at t0 + 2000, the retransmission from pending_retry_msg (t0 + 2100, one keep-alive
+   interval after the first) is shown to the server 50 ticks later, the server's next keep-alive
+   acknowledges it and the client's RetrySender 0 is done; the hypotheses hold up to t0 + 3937, one
+   tick later than the bound t0 + 2000 + (1536 + 300 + 100). *)
+Definition lx_t0 : Z := 1536000.
+Definition lx_cli : conn := (conn0 false) <| c_key := Some 7 |> <| c_status := CONNECTED |> <| c_last_recv := lx_t0 |>.
+Definition lx_srv : conn := (conn0 true) <| c_key := Some 7 |> <| c_status := CONNECTED |> <| c_last_recv := lx_t0 |>.
+Definition lx_P : tparams := {| tp_tau := 300; tp_d := 100; tp_life := 0; tp_T := 5 * TICKS |}.
+Definition lx_th : Z := lx_t0 + 2000.
+Definition lx_hs : list tev :=
+  [TClient (lx_t0 + 300) SNone; TSrvSweep (lx_t0 + 300); TClient (lx_t0 + 600) SNone; TClient (lx_t0 + 900) SNone;
+   TClient (lx_t0 + 1200) SNone; TClient (lx_t0 + 1500) SNone; TClient (lx_t0 + 1800) SNone; TClient (lx_t0 + 2100) SNone;
+   TSrvRecv (lx_t0 + 2150) (SPeer 2); TSrvSweep (lx_t0 + 2200); TClient (lx_t0 + 2400) (SPeer 2);
+   TClient (lx_t0 + 2700) SNone; TClient (lx_t0 + 3000) SNone; TClient (lx_t0 + 3300) SNone; TClient (lx_t0 + 3600) SNone;
+   TClient (lx_t0 + 3900) SNone].
+Definition lx_end : tnet := trun env_ex lx_P (after_send env_ex SCli lx_cli lx_srv [x2a] (IUser 1) lx_t0) lx_hs.
+
+Example C05_lost_healed_delivered :
+  live_startb 7 lx_t0 lx_cli lx_srv = true
+  /\ hvalidb env_ex lx_P SCli lx_th (after_send env_ex SCli lx_cli lx_srv [x2a] (IUser 1) lx_t0) lx_hs = true
+  /\ hnowb lx_P SCli lx_th lx_end (lx_t0 + 3937) = true
+  /\ Z.max lx_th lx_t0 + live_bound lx_P lx_cli = lx_t0 + 3936
+  /\ map (fun x => (fst (fst x), snd (fst x) - lx_t0, ptype_code (h_type (d_hdr (snd x))), h_count (d_hdr (snd x)))) (wd_log (t_cs lx_end))
+     = [(1, 300, 6, 1); (2, 2100, 6, 1); (3, 3900, 4, 0)]
+  /\ map fst (wd_pend (t_cs lx_end)) = [1; 3]
+  /\ c_incoming (t_srv lx_end) = [(1, [x2a])] /\ c_done (t_cli lx_end) = [0].
+Proof. vm_compute. repeat split; reflexivity. Qed.
+
+(* ... the same conclusion through the theorem *)
+Example C05_lost_healed_delivered_by_theorem : c_incoming (t_srv lx_end) = c_incoming lx_srv ++ [(seq_succ (c_seq_msg lx_cli), [x2a])].
+Proof.
+  apply (C05_healed_network_delivers_client_to_server_partial env_ex lx_P 7 lx_t0 lx_th lx_cli lx_srv [x2a] (IUser 1))
+    with (now := lx_t0 + 3937).
+  - apply live_startb_ok. vm_compute. reflexivity.
+  - vm_compute. reflexivity.
+  - vm_compute. discriminate.
+  - vm_compute. discriminate.
+  - apply hvalidb_ok. vm_compute. reflexivity.
+  - apply hnowb_ok. vm_compute. reflexivity.
+  - vm_compute. reflexivity.
+Qed.
+
+(* non-vacuity of 4, server to client, with reordering, duplication and junk: the first datagram
+   (t0 + 300) arrives AFTER the retransmission (t0 + 2100), which is itself shown twice; bytes that do
+   not open are offered to the client; the only datagram of the client that reaches the server was
+   built before anything was accepted, so the server is never acknowledged and keeps retransmitting
+   (datagram 3 still carries the message) — the client application gets the payload exactly once. *)
+Definition lx_junk : dgram :=
+  {| d_hdr := {| h_to_server := false; h_ctime := 100; h_seq := 9; h_ack := 0; h_type := APP; h_len := 3; h_count := 1; h_ackbits := 0 |};
+     d_body := Bad |}.
+Definition lx_hs2 : list tev :=
+  [TSrvSweep (lx_t0 + 300); TClient (lx_t0 + 400) (SJunk lx_junk []); TSrvSweep (lx_t0 + 600); TSrvSweep (lx_t0 + 900);
+   TSrvSweep (lx_t0 + 1200); TSrvSweep (lx_t0 + 1500); TSrvSweep (lx_t0 + 1800); TSrvSweep (lx_t0 + 2100);
+   TClient (lx_t0 + 2150) (SPeer 2); TClient (lx_t0 + 2160) (SPeer 2); TClient (lx_t0 + 2170) (SPeer 1);
+   TSrvRecv (lx_t0 + 2200) (SPeer 1);
+   TSrvSweep (lx_t0 + 2400); TSrvSweep (lx_t0 + 2700); TSrvSweep (lx_t0 + 3000); TSrvSweep (lx_t0 + 3300); TSrvSweep (lx_t0 + 3600);
+   TSrvSweep (lx_t0 + 3900)].
+Definition lx_end2 : tnet := trun env_ex lx_P (after_send env_ex SSrv lx_cli lx_srv [x2a; x2b] (IUser 1) lx_t0) lx_hs2.
+
+Example C05_reordered_duplicated_delivered_once :
+  live_startb 7 lx_t0 lx_srv lx_cli = true
+  /\ hvalidb env_ex lx_P SSrv lx_th (after_send env_ex SSrv lx_cli lx_srv [x2a; x2b] (IUser 1) lx_t0) lx_hs2 = true
+  /\ hnowb lx_P SSrv lx_th lx_end2 (lx_t0 + 3937) = true
+  /\ map (fun x => (fst (fst x), snd (fst x) - lx_t0, ptype_code (h_type (d_hdr (snd x))), h_count (d_hdr (snd x)))) (wd_log (t_sc lx_end2))
+     = [(1, 300, 6, 1); (2, 2100, 6, 1); (3, 3900, 6, 1)]
+  /\ c_incoming (t_cli lx_end2) = [(1, [x2a; x2b])] /\ c_done (t_srv lx_end2) = [].
+Proof. vm_compute. repeat split; reflexivity. Qed.
+
+Example C05_reordered_duplicated_delivered_by_theorem :
+  c_incoming (t_cli lx_end2) = c_incoming lx_cli ++ [(seq_succ (c_seq_msg lx_srv), [x2a; x2b])].
+Proof.
+  apply (C05_healed_network_delivers_server_to_client_partial env_ex lx_P 7 lx_t0 lx_th lx_cli lx_srv [x2a; x2b] (IUser 1))
+    with (now := lx_t0 + 3937).
+  - apply live_startb_ok. vm_compute. reflexivity.
+  - vm_compute. reflexivity.
+  - vm_compute. discriminate.
+  - vm_compute. discriminate.
+  - apply hvalidb_ok. vm_compute. reflexivity.
+  - apply hnowb_ok. vm_compute. reflexivity.
+  - vm_compute. reflexivity.
+Qed.
